@@ -19,6 +19,10 @@ type failover interface {
 	// witnesses in order to trigger a failover to a new leader.
 	Quorum() int
 
+	// IsWitness indicates if a failure report from the given reporter counts
+	// towards the quorum.
+	IsWitness(reporter string) bool
+
 	// Timeout returns the time elapsed before expiring a failover. Each time a
 	// report is made, the failover's timeout is reset. Upon timing out, the
 	// timer for the leader failover is removed.
@@ -59,7 +63,17 @@ func (f *failoverStatus) report(ctx context.Context, witness string) *status.Sta
 	f.mu.Lock()
 
 	f.witnesses[witness] = struct{}{}
-	leaderFailed := len(f.witnesses) > f.failover.Quorum()
+
+	// Only count the reports of those entitled to act as witnesses. This is
+	// evaluated now rather than when a report is made since, e.g., a
+	// partition's ISR can change between reports.
+	witnesses := 0
+	for reporter := range f.witnesses {
+		if f.failover.IsWitness(reporter) {
+			witnesses++
+		}
+	}
+	leaderFailed := witnesses > f.failover.Quorum()
 
 	if leaderFailed {
 		if f.timer != nil {
@@ -121,6 +135,14 @@ func (p *partitionFailover) Quorum() int {
 	return (p.partition.ISRSize() - 1) / 2
 }
 
+// IsWitness indicates if the reporter is an in-sync follower of the partition.
+// The quorum is a majority of the in-sync followers, so reports from replicas
+// outside the ISR, from the leader itself or from unknown brokers do not count.
+func (p *partitionFailover) IsWitness(reporter string) bool {
+	leader, _ := p.partition.GetLeader()
+	return reporter != leader && p.partition.inISR(reporter)
+}
+
 // Timeout returns the configured ReplicaMaxLeaderTimeout.
 func (p *partitionFailover) Timeout() time.Duration {
 	return p.timeout
@@ -160,6 +182,11 @@ func newGroupFailoverStatus(group *consumerGroup, timeout time.Duration,
 // Quorum returns members / 2.
 func (g *groupFailover) Quorum() int {
 	return len(g.group.GetMembers()) / 2
+}
+
+// IsWitness indicates if the reporter is a member of the consumer group.
+func (g *groupFailover) IsWitness(reporter string) bool {
+	return g.group.IsMember(reporter)
 }
 
 // Timeout returns the configured GroupsCoordinatorTimeout.
